@@ -238,6 +238,12 @@ fn vote_mutations(ctx: &mut Ctx, rng: &mut SRng, sc: &mut SigCache) {
         rng.fill_bytes(&mut m.sig);
         m.sig[0] &= 0x1f;
         check_vote_bytes(ctx, sc, "sig-random-bytes", &m.encode(), false, &base);
+        // the genuine signature plus a curve point outside the prime-order subgroup (pairs trivially)
+        if let Some(alt) = crate::wire::add_cofactor_point(&base.sig, rng.random()) {
+            let mut m = base.clone();
+            m.sig = alt;
+            check_vote_bytes(ctx, sc, "sig-plus-cofactor-point", &m.encode(), false, &base);
+        }
         // combined
         let mut m = base.clone();
         m.slot ^= 1;
@@ -414,6 +420,13 @@ fn cert_mutations(ctx: &mut Ctx, rng: &mut SRng, sc: &mut SigCache) {
                 a.sig = [0u8; SIG_LEN];
                 a.sig[0] = 0x40;
                 check_cert_bytes(ctx, sc, &cls("sig-identity-point"), &m.encode(), false, &base);
+                // the genuine aggregate plus a curve point outside the prime-order subgroup
+                let mut m = base.clone();
+                let a = pick_half(&mut m, half).unwrap();
+                if let Some(alt) = crate::wire::add_cofactor_point(&a.sig, rng.random()) {
+                    a.sig = alt;
+                    check_cert_bytes(ctx, sc, &cls("sig-plus-cofactor-point"), &m.encode(), false, &base);
+                }
                 // aggregate over another kind's payload by the same signers
                 let wrong_kind = *ALL_VK.iter().find(|k| **k != if half == 0 { k1 } else { k2.unwrap_or(k1) }).unwrap();
                 let mut m = base.clone();
